@@ -25,7 +25,7 @@ theorem register_ref_method (n : Names) (cfg : GlobalConfig) (all : List Object)
       m.addressType = some t ∧
       m.resetFn = some (if ov.reset.isSome then s!"new_as_{n.method rf.name}" else "new") := by
   unfold getMethod
-  simp only [hov, ObjectOverride.name, ht, bind, Except.bind, pure, Except.pure]
+  simp only [hov, ObjectOverride.name, ht, substRef, bind, Except.bind, pure, Except.pure]
   simp [getMethod, hc, bind, Except.bind, pure, Except.pure]
   cases ov.repeat_ <;> rfl
 
@@ -44,7 +44,7 @@ theorem command_ref_method (n : Names) (cfg : GlobalConfig) (all : List Object) 
       (m.inSet = if c.inFields.isEmpty then none else some s!"{c.name}FieldsIn") ∧
       (m.outSet = if c.outFields.isEmpty then none else some s!"{c.name}FieldsOut") := by
   unfold getMethod
-  simp only [hov, ObjectOverride.name, ht, bind, Except.bind, pure, Except.pure]
+  simp only [hov, ObjectOverride.name, ht, substRef, bind, Except.bind, pure, Except.pure]
   simp [getMethod, hc, bind, Except.bind, pure, Except.pure]
   cases ov.repeat_ <;> rfl
 
